@@ -52,6 +52,7 @@ type Actor struct {
 	CurReqID   string // id delivered and not yet answered
 	CurInv     *Invocation
 	Polls      int
+	ConnErrs   int // calls that ended with a connection error while the process was alive
 	Refused    int // submissions for the delivered id that were refused
 	FirstPoll  int // step of the first next call (0 = none)
 
@@ -232,6 +233,12 @@ func (w *World) absorb() {
 		}
 		a.absorbed[c] = true
 		if c.Err != nil {
+			// the connection to the API died under a live process: a real client treats that as fatal
+			if a.P.Alive {
+				a.ConnErrs++
+				a.st = "refused"
+				a.CurReqID = ""
+			}
 			continue
 		}
 		switch c.Tag {
@@ -263,7 +270,7 @@ func (w *World) absorb() {
 				}
 			} else if c.Status >= 400 {
 				parts := strings.Split(c.Path, "/")
-				if id := parts[len(parts)-2]; id == a.CurReqID {
+				if id := parts[len(parts)-2]; id != "" && id == a.CurReqID {
 					// the submission for the id this runtime was given was refused: a runtime gives up on it
 					a.Refused++
 					a.CurReqID = ""
